@@ -948,9 +948,12 @@ impl<K: EnrKey> Enr<K> {
     /// Compute the enr's signature with the given key.
     fn compute_signature(&self, signing_key: &K) -> Result<Vec<u8>, Error> {
         match self.id() {
-            Some(ref id) if id.as_bytes() == ENR_VERSION => signing_key
-                .sign_v4(&self.rlp_content())
-                .map_err(|_| Error::SigningError),
+            Some(ref id) if id.as_bytes() == ENR_VERSION => {
+                check_signing_key(&self.content, signing_key)?;
+                signing_key
+                    .sign_v4(&self.rlp_content())
+                    .map_err(|_| Error::SigningError)
+            }
             // other identity schemes are unsupported
             _ => Err(Error::UnsupportedIdentityScheme),
         }
@@ -1241,6 +1244,25 @@ pub(crate) fn digest(b: &[u8]) -> [u8; 32] {
     let mut output = [0_u8; 32];
     output.copy_from_slice(&Keccak256::digest(b));
     output
+}
+
+/// Checks that a record with this content is read back with the public key of the key that is
+/// about to sign it. A key type that supports several schemes (`CombinedKey`) picks the public
+/// key by precedence, so the content may hold another entry that would be used instead.
+fn check_signing_key<K: EnrKey>(
+    content: &BTreeMap<Key, Bytes>,
+    signing_key: &K,
+) -> Result<(), Error> {
+    let public_key = signing_key.public();
+    match K::enr_to_public(content) {
+        Ok(key)
+            if key.enr_key() == public_key.enr_key()
+                && key.encode().as_ref() == public_key.encode().as_ref() =>
+        {
+            Ok(())
+        }
+        _ => Err(Error::SigningError),
+    }
 }
 
 fn check_spec_reserved_keys(key: &[u8], mut value: &[u8]) -> Result<(), Error> {
